@@ -144,6 +144,7 @@ type vLive struct {
 	vals  []float64
 	alias int // alias group
 	alive bool
+	mask  []bool // logical mask (nil = unmasked), row-major like vals
 }
 
 func vParseInts(s string, sep rune) []int {
@@ -180,6 +181,14 @@ func vhC19Hist() {
 			// every live tensor must present its model (the destination's model has been updated by the step)
 			_ = dest
 			vCheckAll(l.t, l.vals, l.shape, "live-equal-model", "", false)
+			if l.mask != nil {
+				lm, ls, lt := l.mask, l.shape, l.t
+				vAssert(lt.IsMasked(), "live-mask-present")
+				vForCoords(ls, func(c []int) {
+					m, err := lt.MaskAt(c...)
+					vAssert(err == nil && m == lm[vRowRank(ls, c)], "live-mask-equal-model")
+				})
+			}
 		}
 	}
 	for si, st := range prog {
@@ -341,7 +350,40 @@ func vhC19Hist() {
 					ns = ns[1:]
 				}
 				live[k] = &vLive{t: d, shape: ns, vals: nv, alias: a.alias, alive: true}
+				if a.mask != nil {
+					nm := make([]bool, len(nv))
+					am := a.mask
+					vForCoords(ns, func(c []int) {
+						pc := vCopyInts(c)
+						pc[0]++
+						nm[vRowRank(ns, c)] = am[vRowRank(as, pc)]
+					})
+					live[k].mask = nm
+				}
 			}
+		case 'k': // k<i>: attach a mask with symbolic bits to tensor i (contiguous, not a view)
+			l := live[num(rest)]
+			bits := vNondetSlice[bool]("k"+vItoa(si), len(l.vals))
+			l.t.ResetMask(false)
+			lt, ls := l.t, l.shape
+			vForCoords(ls, func(c []int) {
+				if err := lt.SetMaskAt(bits[vRowRank(ls, c)], c...); err != nil {
+					panic("vhC19Hist: SetMaskAt failed")
+				}
+			})
+			l.mask = bits
+		case 'K': // K<k>:<shape>: a new tensor (possibly a recycled one) that builds a fresh all-true mask
+			k := num(rest)
+			shape := vParseInts(rest[2:], 'x')
+			t := New(Of(Float64), WithShape(shape...))
+			t.ResetMask(true)
+			vals := make([]float64, vProd(shape))
+			mk := make([]bool, len(vals))
+			for q := range mk {
+				mk[q] = true
+			}
+			live[k] = &vLive{t: t, shape: shape, vals: vals, alias: nextAlias, alive: true, mask: mk}
+			nextAlias++
 		case 'w': // w<k>: Memset with a symbolic value; every alias of k changes at the aliased positions
 			k := num(rest)
 			l := live[k]
